@@ -41,12 +41,15 @@ FILTERS = {
 
 def _k1_cases(tier):
     out = []
-    for n in ([1, 2] if tier == "quick" else [1, 2, 3]):
+    for n in [1, 2]:
         for flt in (["none", "white-A", "black-A"] if tier == "quick" else sorted(FILTERS)):
-            for nper in ([0, 1] if tier == "quick" else [0, 1, 2]):
+            for nper in [0, 1]:
                 out.append((n, flt, nper))
-    if tier == "quick":
-        out.append((1, "none", 2))        # two excluded periods (touching, nested, ...)
+    out.append((1, "none", 2))        # two excluded periods (touching, nested, ...)
+    if tier == "thorough":
+        # sized to the tier's time budget: the path count grows roughly x4 per file and per period
+        out += [(1, flt, 2) for flt in sorted(FILTERS) if flt != "none"]
+        out += [(2, "none", 2), (2, "white-list", 2), (3, "none", 0), (3, "white-list", 0), (3, "black-list", 0), (3, "none", 1)]
     return out
 
 
@@ -207,6 +210,11 @@ LAYOUTS = {
     "name/y/doy": ("/data/sat_{name}/{year}/{doy}/{hour}{minute}.nc", "1 hour"),
     "y/lit/m": ("/data/{year}/level1/{month}/{day}{hour}{minute}.nc", "36 hours"),
     "flat": ("/data/{year}{month}{day}{hour}{minute}.nc", "1 hour"),
+    "lit/y/doy": ("/data/archive/v2/{year}/{doy}/{hour}{minute}.nc", "1 hour"),
+    "y/m/lit": ("/data/{year}/{month}/raw/{day}{hour}{minute}.nc", "1 hour"),
+    "y/lit/lit/m/d": ("/data/{year}/a/b/{month}/{day}/{hour}{minute}.nc", "1 hour"),
+    "name-lit/y": ("/data/{name}/l1b/{year}/{month}{day}{hour}{minute}.nc", "3 hours"),
+    "y/m/d/h": ("/data/{year}/{month}/{day}/{hour}/{minute}{second}.nc", "50 minutes"),
     "y/m-end": ("/data/{year}/{month}/{day}{hour}{minute}-{end_hour}{end_minute}.nc", None),
 }
 
@@ -232,7 +240,7 @@ def _populate(fset, mfs, layout):
     return out
 
 
-@harness("C01.tree", cases=lambda tier: sorted(LAYOUTS) if tier == "thorough" else ["y/m/d", "y/doy", "y", "y2/m/d/h", "name/y/doy", "y/m-end", "flat"],
+@harness("C01.tree", cases=lambda tier: sorted(LAYOUTS) if tier == "thorough" else ["y/m/d", "y/doy", "y", "y2/m/d/h", "name/y/doy", "y/lit/m", "y/m-end", "flat"],
          expect=lambda c: ["find-is-exact-on-the-tree"])
 def k_tree(ctx):
     layout = ctx.case
@@ -269,11 +277,11 @@ PLAN = {
 BOUNDS = {"quick": {"per-file decision": "flat template, n <= 2 files with arbitrary symbolic coverages (microsecond resolution), <= 1 symbolic "
                     "excluded period, every subset of names excluded, no / white / black filter on a user placeholder; symbolic [start, end), "
                     "symbolic membership instant; all instants inside the calendar window " + WIN.describe(),
-                    "directory pruning": "7 directory layouts (year/month/day, year/doy, year, year2/month/day/hour, user placeholder + year/doy, "
-                                         "end fields, flat) x 8 concrete files placed at year / month / leap-day boundaries, file length <= one "
+                    "directory pruning": "8 directory layouts (year/month/day, year/doy, year, year2/month/day/hour, user placeholder + year/doy, "
+                                         "a literal directory between year and month, end fields, flat) x 8 concrete files placed at year / month / leap-day boundaries, file length <= one "
                                          "period of the finest directory level; every period [start, end) with microsecond bounds in 2019-12-01 .. 2020-04-01",
                     "bundling": "n <= 3 symbolic files, integer bundle sizes 1, 2, 4, sorted and unsorted"},
-          "thorough": {"per-file decision": "n <= 3 files, <= 2 excluded periods, list filters", "directory pruning": "adds year-month/day and year/literal/month layouts",
+          "thorough": {"per-file decision": "adds list filters; n = 1 with 2 excluded periods under every filter; n = 2 with 2 excluded periods (no / white-list filter); n = 3 files without excluded periods (no / white-list / black-list filter) and with 1 excluded period (no filter)", "directory pruning": "all %d layouts (adds year-month/day, literal/year/doy, year/month/literal, year/literal/literal/month/day, name-literal/year, year/month/day/hour, ...)" % len(LAYOUTS),
                        "bundling": "n = 4"}}
 OUTSIDE = ["time-frequency bundling (pandas Grouper)", "zip file systems", "to_dataframe", "instants outside the calendar window (in particular "
            "datetime.min / year 1 look-back)", "files longer than one directory period (excluded by the property)",
